@@ -131,7 +131,15 @@ pub fn counts_in_scope(text: &str) -> bool {
 
 pub fn mutate(base: &str, rng: &mut Rng) -> (String, &'static str) {
     let mut cs: Vec<char> = base.chars().collect();
-    let kind = match rng.below(11) {
+    let kind = match rng.below(12) {
+        11 => {
+            // a block of doc-comment lines with uneven indentation and blank-only lines, at the start of a line
+            let starts: Vec<usize> = std::iter::once(0).chain(cs.iter().enumerate().filter(|(_, c)| **c == '\n').map(|(i, _)| i + 1)).collect();
+            let at = *rng.pick(&starts);
+            let block: Vec<char> = doc_block(rng).chars().collect();
+            cs.splice(at..at, block);
+            "doc_block"
+        }
         10 => {
             // a literal whose body mixes plain, non-ASCII and escaped characters, some escapes
             // well-formed for the meta-grammar but denoting no character
@@ -221,6 +229,69 @@ pub fn mutate(base: &str, rng: &mut Rng) -> (String, &'static str) {
     (cs.into_iter().collect(), kind)
 }
 
+/// 2..6 lines of `///` (or `//!`) documentation: indented by 0..4 blanks of several kinds, some lines holding
+/// nothing but blanks shorter than the others' indentation, LF or CRLF line ends.
+pub fn doc_block(rng: &mut Rng) -> String {
+    let marker = if rng.chance(1, 4) { "//!" } else { "///" };
+    let blanks = [" ", " ", " ", "\t", "\u{a0}", "\u{3000}", "\r"];
+    let common = rng.below(5);
+    let n = 2 + rng.below(5);
+    let mut out = String::new();
+    for _ in 0..n {
+        out.push_str(marker);
+        match rng.below(5) {
+            0 => {
+                // only blanks, fewer than the common indentation
+                for _ in 0..rng.below(common + 1) {
+                    out.push_str(*rng.pick(&blanks));
+                }
+            }
+            1 => {}
+            _ => {
+                for _ in 0..common + rng.below(2) {
+                    out.push_str(if rng.chance(1, 6) { *rng.pick(&blanks) } else { " " });
+                }
+                out.push_str(*rng.pick(&["text", "é→", "a  b", "`code`", "- item", "x"]));
+                for _ in 0..rng.below(3) {
+                    out.push(' ');
+                }
+            }
+        }
+        out.push_str(if rng.chance(1, 4) { "\r\n" } else { "\n" });
+    }
+    out
+}
+
+/// Rules whose calls carry tags (grammar-extras syntax; plain text otherwise), the tagged rules silent and
+/// recursive directly or through other silent rules, reaching terminals before they recurse.
+pub fn tagged_recursion_family(r: &mut Rng) -> String {
+    let k = 1 + r.below(3);
+    let names: Vec<String> = (0..k).map(|i| format!("s{i}")).collect();
+    let mut out = String::new();
+    let tag = |r: &mut Rng, body: &str| if r.chance(3, 4) { format!("#t{} = {body}", r.below(3)) } else { body.to_string() };
+    let first = tag(r, &names[0]);
+    let pick2 = r.pick(&names).clone();
+    let second = tag(r, &pick2);
+    let m = *r.pick(&["", "@", "$", "!"]);
+    out.push_str(&format!("item = {m}{{ {first} ~ \"x\" ~ ({second})? }}\n"));
+    for (i, n) in names.iter().enumerate() {
+        let next = &names[(i + 1) % k];
+        let body = match r.below(5) {
+            0 => format!("\" \" ~ {next}?"),
+            1 => format!("\"a\" ~ ({next} | \"b\")"),
+            2 => format!("(\"c\" ~ {next})*"),
+            3 => {
+                let t = tag(r, &format!("{next}?"));
+                format!("\"d\" ~ {t} ~ \"e\"")
+            }
+            _ => format!("\"(\" ~ {next} ~ \")\" | \"f\""),
+        };
+        let m = *r.pick(&["_", "_", "_", ""]);
+        out.push_str(&format!("{n} = {m}{{ {body} }}\n"));
+    }
+    out
+}
+
 /// A string, case-insensitive string, character or range literal with a mixed body.
 pub fn escape_literal(rng: &mut Rng) -> String {
     const PLAIN: &[&str] = &["a", "b", "Z", "0", " ", "é", "ß", "→", "字", "😀", "\u{feff}", "e\u{301}"];
@@ -270,6 +341,9 @@ pub fn gen_text(r: &mut Rng, i: u64, files: &[(String, String)], cfg: &GenCfg) -
     }
     if i % 200 == 57 {
         return (layered_family(r), "layered_reference_dag", "template");
+    }
+    if i % 50 == 31 {
+        return (tagged_recursion_family(r), "tagged_silent_recursion", "template");
     }
     let (text, kind, source): (String, &'static str, &'static str) = match i % 10 {
             0..=4 if !files.is_empty() => {
